@@ -160,3 +160,93 @@ fn native_expansion_folders() {
     }
     println!("NATIVE native_expansion_folders cases={cases}");
 }
+
+fn file_operation_contract(letter: u8, want: SqpkFileOperation) {
+    let mut b: [u8; 29] = kani::any();
+    b[0] = letter;
+    b[19] = 0; b[20] = 0; b[21] = 0; b[22] = 2;
+    b[27] = b'a'; b[28] = 0;
+    let mut c = Cursor::new(&b[..]);
+    match SqpkFileOperationData::read(&mut c) {
+        Ok(f) => {
+            assert!(f.operation == want, "operation selected by its letter");
+            assert!(f.offset == be64(&b, 3) && f.file_size == be64(&b, 11), "offset and size big-endian");
+            assert!(f.expansion_id == be16(&b, 23), "expansion id");
+            assert!(f.path.as_bytes() == b"a", "path without its NUL");
+            assert!(c.position() == 29, "29 bytes");
+            core::mem::forget(f);
+        }
+        Err(e) => { core::mem::forget(e); assert!(false, "command parses"); }
+    }
+    kani::cover!(true, "reachable");
+}
+
+//@unit props=C03 label=S tier=thorough fn=patch::SqpkFileOperationData(derive read) bound="file-operation command with operation letter A, symbolic offset, size and expansion id, and the 2-byte path 'a' + NUL" stubs=fmt::format
+//@desc letter A = add file; offset and file size are the big-endian 64-bit words at 3 and 11; path length the big-endian word at 19; expansion id the big-endian word at 23; the path follows at 27
+#[kani::proof]
+#[kani::unwind(6)]
+#[kani::stub(alloc::fmt::format, stub_fmt)]
+fn k_sqpk_file_operation_add() { file_operation_contract(b'A', SqpkFileOperation::AddFile); }
+
+//@unit props=C03 label=S tier=thorough fn=patch::SqpkFileOperationData(derive read) bound="same command with operation letter D" stubs=fmt::format
+//@desc letter D = delete file
+#[kani::proof]
+#[kani::unwind(6)]
+#[kani::stub(alloc::fmt::format, stub_fmt)]
+fn k_sqpk_file_operation_delete() { file_operation_contract(b'D', SqpkFileOperation::DeleteFile); }
+
+//@unit props=C03 label=S tier=thorough fn=patch::{SqpkIndex,SqpkPatchInfo}(derive read) bound="index command (27 bytes, letter A) and patch-info command (11 bytes), other bytes symbolic" stubs=fmt::format
+//@desc index command: letter selects add/delete, synonym flag = byte 1 equals 1, 64-bit hash big-endian at 3, block offset and count big-endian at 11 and 15; patch info: status, version, install size big-endian at 3
+#[kani::proof]
+#[kani::unwind(6)]
+#[kani::stub(alloc::fmt::format, stub_fmt)]
+fn k_sqpk_index_and_info() {
+    let mut b: [u8; 27] = kani::any();
+    let add = true;
+    b[0] = b'A';
+    let mut c = Cursor::new(&b[..]);
+    match SqpkIndex::read(&mut c) {
+        Ok(i) => {
+            assert!((i.command == SqpkIndexCommand::Add) == add, "command letter");
+            assert!(i.is_synonym == (b[1] == 1), "synonym flag");
+            assert!(i.file_hash == be64(&b, 3) && i.block_offset == be32(&b, 11) && i.block_number == be32(&b, 15), "hash, offset, count big-endian");
+            assert!(c.position() == 27, "27 bytes");
+        }
+        Err(e) => { core::mem::forget(e); assert!(false, "command parses"); }
+    }
+    let mut c = Cursor::new(&b[..]);
+    match SqpkPatchInfo::read_be(&mut c) {
+        Ok(p) => { assert!(p.status == b[0] && p.version == b[1] && p.install_size == be64(&b, 3), "status, version, install size"); assert!(c.position() == 11, "11 bytes"); }
+        Err(e) => { core::mem::forget(e); assert!(false, "command parses"); }
+    }
+    kani::cover!(true, "reachable");
+}
+
+//@unit props=C03 label=S tier=thorough fn=patch::SqpkHeaderUpdateData(derive read) bound="header-update command: kind letters D/I and V/I/D, symbolic ids, 1024 symbolic header bytes" stubs=fmt::format
+//@desc file kind and header kind are selected by their letters; ids big-endian at 3, 5, 7; the 1024 bytes that follow are the header data, in order
+#[kani::proof]
+#[kani::unwind(1030)]
+#[kani::stub(alloc::fmt::format, stub_fmt)]
+fn k_sqpk_header_update() {
+    let mut b: [u8; 1035] = kani::any();
+    let (fk, hk): (bool, u8) = (kani::any(), kani::any());
+    kani::assume(hk < 3);
+    b[0] = if fk { b'D' } else { b'I' };
+    b[1] = [b'V', b'I', b'D'][hk as usize];
+    let mut c = Cursor::new(&b[..]);
+    match SqpkHeaderUpdateData::read(&mut c) {
+        Ok(h) => {
+            assert!((h.file_kind == TargetFileKind::Dat) == fk, "file kind letter");
+            let want = match hk { 0 => TargetHeaderKind::Version, 1 => TargetHeaderKind::Index, _ => TargetHeaderKind::Data };
+            assert!(h.header_kind == want, "header kind letter");
+            assert!(h.main_id == be16(&b, 3) && h.sub_id == be16(&b, 5) && h.file_id == be32(&b, 7), "ids big-endian");
+            assert!(h.header_data.len() == 1024, "1 KiB of header data");
+            let i: usize = kani::any();
+            kani::assume(i < 1024);
+            assert!(h.header_data[i] == b[11 + i], "header bytes in order");
+            core::mem::forget(h);
+        }
+        Err(e) => { core::mem::forget(e); assert!(false, "command parses"); }
+    }
+    kani::cover!(true, "reachable");
+}
